@@ -120,6 +120,10 @@ pub fn with<R>(f: impl FnOnce(&mut Rt) -> R) -> R {
 /// Like `with`, but does nothing when the runtime is borrowed (used by the logger, which may be
 /// called from inside runtime code) or not created.
 pub fn try_with<R>(f: impl FnOnce(&mut Rt) -> R) -> Option<R> {
+    if crate::worker::on_worker_thread() {
+        // closure threads never own a runtime
+        return None;
+    }
     RT.try_with(|cell| match cell.try_borrow_mut() {
         Ok(mut b) => {
             if b.is_none() {
